@@ -91,7 +91,7 @@ def main(argv):
         for t in range(ncase):
             n = int(rng.integers(1, 5 if ck.tier == "quick" else 6))
             if binary and t % 2:
-                labels = sorted(int(x) for x in rng.choice(8, n, replace=False)); nphys = max(labels) + 1
+                labels = sorted(int(x) for x in rng.choice([8, 12, 40][int(rng.integers(3))], n, replace=False)); nphys = max(labels) + 1
             else:
                 labels = list(range(n)); nphys = n
             body = sc.rand_circuit(rng, labels, int(rng.integers(2, 30 if ck.tier == "thorough" else 16)), adjacent=not binary)
